@@ -39,6 +39,12 @@ def run(ctx, report):
     report.section("default before use", default_before_use, ctx, report)
     report.section("WebVTT option guards", webvtt_option_guards, ctx, report)
     report.section("keys and splitting", keys_and_split, ctx, report)
+    from . import webvtt_layout_fold, markup_writer_fold
+    report.section("written DFXP documents", markup_writer_fold.run, ctx, report, {"layout": ("R-DOC-LAYOUT", "1")})
+    report.section("WebVTT cue settings on a grid", webvtt_layout_fold.run, ctx, report, {
+        "arith": ("R-GRID", "2", "position = left + left padding, line = top + top padding, size = width - horizontal paddings"),
+        "align": ("R-GRID", "2", "align is the layout's horizontal alignment, omitted when centred"),
+    })
     report.not_decided.append("effective layout per visible character after DFXP write + read (needs the parser)")
 
 
